@@ -365,12 +365,12 @@ theorem heldT_spec {st : St} (h : heldT st = true) : st.term.freed = false ∧ 0
 theorem SInv.set_term {st : St} (inv : SInv gh st) (tm : Obj)
     (h1 : tm.freed = false → (∃ r, LiveW st.tree 0 r) → tm.refcount = (tm.appRefs : Int) + (gh.term : Int) + 1)
     (h2 : tm.freed = false → (¬ ∃ r, LiveW st.tree 0 r) → tm.refcount = (tm.appRefs : Int) + (gh.term : Int) ∧ 1 ≤ tm.refcount)
-    (h3 : tm.freed = true → ¬ ∃ r, LiveW st.tree 0 r) : SInv gh { st with term := tm } := by
+    (h3 : tm.freed = true → (¬ ∃ r, LiveW st.tree 0 r) ∧ tm.appRefs = 0 ∧ gh.term = 0) : SInv gh { st with term := tm } := by
   refine ⟨⟨inv.tinv, inv.wx_size, inv.rc, List.nodup_nil, by intro i hi; simp at hi, inv.dead_pen,
     ⟨inv.pens.rc, inv.pens.ex, inv.pens.pos⟩, ?_, ?_, ?_, inv.simple⟩, inv.wref⟩
   · intro hf h; exact h1 hf (by rcases h with h | h; exact h; simp at h)
   · intro hf h; exact h2 hf (fun h' => h (.inl h'))
-  · intro hf h; exact h3 hf (by rcases h with h | h; exact h; simp at h)
+  · intro hf; exact ⟨fun h => (h3 hf).1 (by rcases h with h | h; exact h; simp at h), (h3 hf).2⟩
 
 /-- `tickit_term_ref` by the application. -/
 theorem tref_ok {st : St} (inv : SInv gh st) (h : heldT st = true) :
@@ -414,10 +414,17 @@ theorem tunref_ok {st : St} (inv : SInv gh st) (h : heldT st = true) :
     show st.term.refcount - 1 = ((st.term.appRefs - 1 : Nat) : Int) + (gh.term : Int) ∧ 1 ≤ st.term.refcount - 1
     have hf'' : ¬ st.term.refcount - 1 = 0 := hf'
     omega
-  · intro hf' hr
-    have := inv.term_held hf (.inl hr)
+  · intro hf'
     simp only [dropped_freed, decide_eq_true_eq] at hf'
-    omega
+    have hf'' : st.term.refcount - 1 = 0 := hf'
+    refine ⟨fun hr => ?_, ?_⟩
+    · have := inv.term_held hf (.inl hr)
+      omega
+    · simp only [dropped_appRefs]
+      show st.term.appRefs - 1 = 0 ∧ gh.term = 0
+      by_cases hr : ∃ r, LiveW st.tree 0 r
+      · have := inv.term_held hf (.inl hr); omega
+      · have := inv.term_free hf (by rintro (h' | h'); exact hr h'; simp at h'); omega
 
 /-! ## render buffers and strings -/
 
